@@ -408,6 +408,10 @@ ENGINES.append({"name": "ct (valgrind lackey + trace cutter)", "path": "/verif/c
                 "kind_free_text": "release trace subject built without hooks, run under valgrind --tool=lackey --trace-mem=yes; ct-cut hashes the marker-delimited (instruction, address) trace"})
 
 
+ENGINES.append({"name": "dalek-fx", "path": "/verif/fx", "serves_properties": ["C14"],
+                "kind_free_text": "small binary built once per subset of the cargo features that gate the secret-holding types (zeroize on); create/use/clone/drop lifecycles under the same allocator-level observer as dalek-mc, with a positive control per build"})
+
+
 def _fx_post(pid, tier, partials, scratch, bins):
     import fx
     return fx.post(pid, tier, partials, scratch, bins)
